@@ -37,6 +37,12 @@ int redirect_parent(int *child, REPROC_STREAM stream)
     return errno == EBADF ? -EPIPE : -errno;
   }
 
+  // `fileno` does not tell us whether the file descriptor behind the stream is
+  // still open (e.g. after `close(STDIN_FILENO)`).
+  if (fcntl(r, F_GETFD) < 0) {
+    return errno == EBADF ? -EPIPE : -errno;
+  }
+
   *child = r; // `r` contains the duplicated file descriptor.
 
   return 0;
